@@ -2,7 +2,7 @@
    Mirrors the code of the current /repo function by function; exceptions are values of `result`. *)
 From Coq Require Import List NArith ZArith Bool Arith.
 From Coq Require Import Strings.Byte.
-Require Import CU.model.Prim CU.model.Types CU.model.Unicode CU.model.Regex CU.model.Codec CU.model.Card CU.model.Dates.
+Require Import CU.model.Prim CU.model.Types CU.model.Unicode CU.model.Regex CU.model.Codec CU.model.Card CU.model.Dates CU.model.Dec.
 Import ListNotations.
 
 (* ---------- BitArray: 128 flags <-> 16 bytes, most significant bit first ---------- *)
@@ -36,7 +36,23 @@ Definition pytype_to_string (v : value) (c : fieldcfg) : result value :=
       | VDate _ => Raise EType
       end
     end
-  | PTDec => Unmodelled
+  | PTDec =>                                   (* format(decimal.Decimal(v), '0' + str(w) + 'f'); a Decimal is its text *)
+    match f_len c with
+    | None => Unmodelled
+    | Some w =>
+      (* the Decimal is built first, then formatted: '00f' is "ValueError: invalid format string" *)
+      let fmt (d : dec) : result value := match w with O => Raise EValue | S _ => Ok (VStr (dec_fmt w d)) end in
+      match v with
+      | VStr s => match dec_parse s with
+                  | DPlain d => fmt d
+                  | DInvalid => Raise EOther   (* decimal.InvalidOperation: an ArithmeticError, not caught by dumps *)
+                  | DUnmodelled => Unmodelled
+                  end
+      | VInt z => fmt (dec_of_Z z)
+      | VBytes _ => Unmodelled
+      | VDate _ => Raise EType                 (* conversion from datetime.datetime to Decimal is not supported *)
+      end
+    end
   | PTDate =>
     match v with
     | VDate d => do s <- strftime_m (f_datefmt c) d; Ok (VStr s)
@@ -160,7 +176,12 @@ Definition string_to_pytype (s : str) (c : fieldcfg) : result value :=
   match f_ptype c with
   | PTStr => Ok (VStr s)
   | PTInt => match py_int s with Some z => Ok (VInt z) | None => Raise EValue end
-  | PTDec => Unmodelled
+  | PTDec =>                                   (* decimal.Decimal(s), returned as its text str(d) *)
+    match dec_parse s with
+    | DPlain d => match dec_str d with Some t => Ok (VStr t) | None => Unmodelled end   (* None: exponent notation *)
+    | DInvalid => Raise EValue                 (* decimal.InvalidOperation: caught by the caller with ValueError *)
+    | DUnmodelled => Unmodelled
+    end
   | PTDate => do d <- strptime_m (f_datefmt c) s; Ok (VDate d)
   end.
 
